@@ -331,7 +331,8 @@ func (node *TopNode) resolveMerge(binding *syntax.MergeExp, t syntax.Type,
 	} else {
 		forkRefId = binding.Call.GetFqid()
 	}
-	parts, errs := node.getParts(binding.GetCall(), fork, forkRefId)
+	parts, errs := node.getParts(binding.GetCall(),
+		node.mergeMatchFork(binding, fork, forkRefId), forkRefId)
 	if err := errs.If(); err != nil {
 		util.PrintError(err, "runtime",
 			"Resolving parts for %s.  This will likely result in further errors.",
@@ -437,6 +438,54 @@ func (node *TopNode) resolveMerge(binding *syntax.MergeExp, t syntax.Type,
 		return allReady, result, err
 	}
 	panic("invalid mapping mode")
+}
+
+// mergeMatchFork returns the fork ID which forks of the node with the given ID
+// must match in order to contribute a part to the given merge.
+//
+// A merge which was partially evaluated at compile time, for example for one
+// key of a statically-mapped enclosing pipeline, has the indices for the
+// enclosing calls bound in its reference to the forked node, rather than in
+// the ID of the fork which is resolving it.  Those indices constrain the
+// set of forks just like the ones in the fork ID do.
+func (node *TopNode) mergeMatchFork(binding *syntax.MergeExp, fork ForkId,
+	id string) ForkId {
+	boundNode := node.allNodes[id]
+	if boundNode == nil || len(boundNode.forkRoots) < 2 {
+		return fork
+	}
+	ref := binding.ForkNode
+	if ref == nil {
+		for _, r := range binding.Value.FindRefs() {
+			if r.Id == id {
+				ref = r
+				break
+			}
+		}
+	}
+	if ref == nil || len(ref.Forks) == 0 {
+		return fork
+	}
+	roots := make([]*syntax.CallStm, 0, len(boundNode.forkRoots)-1)
+	bound := false
+	for _, root := range boundNode.forkRoots {
+		if root == binding.GetCall() {
+			continue
+		}
+		if _, err := fork.matchPart(root); err == nil {
+			roots = append(roots, root)
+		} else if i := ref.Forks[root]; i != nil && i.IndexSource() == nil {
+			roots = append(roots, root)
+			bound = true
+		}
+	}
+	if !bound {
+		return fork
+	}
+	if matched, err := fork.Match(ref.Forks, roots); err == nil {
+		return matched
+	}
+	return fork
 }
 
 // getParts returns the ForkSourcePart corresponding the the given call for
